@@ -23,3 +23,28 @@ fn p_citer_view() {
     assert!(unsafe { out.assume_init() } == b, "C16 slot untouched at the end");
     kani::cover!(true, "reaches end");
 }
+
+static mut DROPS: u32 = 0;
+struct D { v: u32, heap: std::boxed::Box<u32> }
+impl Drop for D { fn drop(&mut self) { assert!(*self.heap == !self.v, "C16 dropped item is a real item"); unsafe { DROPS += 1 } } }
+#[kani::proof]
+#[kani::unwind(4)]
+fn p_citer_view_owned_items() {
+    // a C caller hands the next function an UNINITIALISED out slot; for items with a destructor the
+    // function must only write it
+    let v: u32 = kani::any();
+    let mut src = Some(D { v, heap: std::boxed::Box::new(!v) }).into_iter();
+    let it = CIterator::new(&mut src);
+    let view: ItView<D> = unsafe { core::mem::transmute_copy(&it) };
+    core::mem::forget(it);
+    let mut out = MaybeUninit::<D>::uninit();
+    assert!((view.func)(view.iter, out.as_mut_ptr()) == 0, "C16 0 for an item");
+    assert!(unsafe { DROPS } == 0, "C16 nothing is dropped when the item is stored into the caller's slot");
+    let d = unsafe { out.assume_init() };
+    assert!(d.v == v && *d.heap == !v, "C16 the slot holds the item");
+    drop(d);
+    let mut out2 = MaybeUninit::<D>::uninit();
+    assert!((view.func)(view.iter, out2.as_mut_ptr()) != 0, "C16 non-zero at the end");
+    assert!(unsafe { DROPS } == 1, "C16 the item was dropped exactly once, by the caller");
+    kani::cover!(true, "reaches end");
+}
